@@ -51,8 +51,9 @@ def build_cases(tier, seed):
         for rows in itertools.product(itertools.product(("A", ""), repeat=6), repeat=2):
             if rows[0] <= rows[1]:
                 cs.append(("csv", (6, rows)))
-        for rows in itertools.product(itertools.product(small, repeat=3), repeat=3):
-            cs.append(("csv", (3, rows)))
+        for rows in itertools.product(itertools.product(("A", "B", ""), repeat=3), repeat=3):
+            if rows[0] <= rows[1] <= rows[2]:  # row order is covered by the smaller tables; here one order per multiset of rows
+                cs.append(("csv", (3, rows)))
     for k in ("missing", "empty", "header_only"):
         cs.append(("bad", k))
     # Scottish files
